@@ -3,6 +3,7 @@ package syntax
 import (
 	"fmt"
 	"log"
+	"slices"
 	"sort"
 	"strings"
 
@@ -622,7 +623,7 @@ func ProvisionalName(expr *Expr, m *Model) string {
 	case Set:
 		var sb strings.Builder
 		sb.WriteString("setof_")
-		appendSetName(m.Sets[expr.SetIndex], m, &sb)
+		appendSetName(m.Sets[expr.SetIndex], m, &sb, nil /*path*/)
 		return sb.String()
 	case Lookahead:
 		var sb strings.Builder
@@ -640,7 +641,13 @@ func ProvisionalName(expr *Expr, m *Model) string {
 	return ""
 }
 
-func appendSetName(ts *TokenSet, m *Model, out *strings.Builder) {
+func appendSetName(ts *TokenSet, m *Model, out *strings.Builder, path []*TokenSet) {
+	if slices.Contains(path, ts) {
+		// Named sets can refer to themselves (directly or via other named sets).
+		out.WriteString("self")
+		return
+	}
+	path = append(path, ts)
 	switch ts.Kind {
 	case Any:
 		out.WriteString(m.Ref(ts.Symbol, nil /*args*/))
@@ -658,7 +665,7 @@ func appendSetName(ts *TokenSet, m *Model, out *strings.Builder) {
 		out.WriteString(m.Ref(ts.Symbol, nil /*args*/))
 	case Complement:
 		out.WriteString("not_")
-		appendSetName(ts.Sub[0], m, out)
+		appendSetName(ts.Sub[0], m, out, path)
 	case Union, Intersection:
 		for i, sub := range ts.Sub {
 			if i > 0 {
@@ -668,7 +675,7 @@ func appendSetName(ts *TokenSet, m *Model, out *strings.Builder) {
 					out.WriteString("_")
 				}
 			}
-			appendSetName(sub, m, out)
+			appendSetName(sub, m, out, path)
 		}
 	default:
 		log.Fatalf("cannot compute name for TokenSet Kind=%v", ts.Kind)
